@@ -93,7 +93,7 @@ def cases(ctx):
     for (t, a, nm, im) in sel:
         add(t, [(a, nm, [(im, 1 + (nm % 7))])], klass="1x1")
     # 1..3 x 1..3 trees
-    for i in range(60 if ctx.quick else 3000):
+    for i in range(60 if ctx.quick else 20000):
         adms = []
         for _ in range(r.randrange(1, 4)):
             adms.append((r.choice(kinds), r.randrange(8), [(r.randrange(16), r.randrange(1, 8)) for _ in range(r.randrange(1, 4))]))
